@@ -337,6 +337,10 @@ where
         } else {
             0
         };
+        let trace = std::env::var_os("VERIF_SCHED_TRACE").is_some();
+        if trace {
+            eprintln!("[sched] join on {:?} injected={injected} decision={d}", current_thread_index());
+        }
         let (ra, rb): (Result<RA, PanicPayload>, Result<RB, PanicPayload>) = match d {
             0 => {
                 let ra = catch_unwind(AssertUnwindSafe(|| oper_a(FnContext::new(injected))));
@@ -363,6 +367,9 @@ where
                 }
             }
         };
+        if trace {
+            eprintln!("[sched] join done on {:?}: a_ok={} b_ok={}", current_thread_index(), ra.is_ok(), rb.is_ok());
+        }
         match (ra, rb) {
             (Ok(a), Ok(b)) => (a, b),
             (Err(p), _) => resume_unwind(p),
